@@ -31,6 +31,9 @@ pub struct WorldCfg {
     /// Reindex is not executed on a store that has gaps
     #[serde(default)]
     pub reindex_with_gaps: bool,
+    /// evaluate the related-text oracle every n steps (0 = never)
+    #[serde(default)]
+    pub related_every: usize,
 }
 
 impl Default for WorldCfg {
@@ -44,6 +47,7 @@ impl Default for WorldCfg {
             io_eintr: false,
             skip_residue: true,
             reindex_with_gaps: false,
+            related_every: 0,
         }
     }
 }
@@ -380,6 +384,9 @@ impl World {
             c.check_reverse();
             if force_ids || (self.cfg.ids_every > 0 && stepno % self.cfg.ids_every == 0) {
                 c.check_ids(&self.id_pool);
+            }
+            if c.out.is_empty() && self.cfg.related_every > 0 && stepno % self.cfg.related_every == 0 {
+                c.check_related_text(crate::rng::label_hash("related") ^ (stepno as u64));
             }
         }
         let mut out = c.out;
